@@ -878,10 +878,30 @@ Proof.
   - destruct (s_prev st0) as [p|]; [|discriminate]. eapply IH; exact H.
 Qed.
 
+Lemma log_extmods_first_ok : forall op0 op,
+  op_ok op0 -> log_extmods_first op0 = Some op -> op_ok op.
+Proof.
+  intros op0 op [Hi [Hs Hb]] E. unfold log_extmods_first in E.
+  destruct (Nat.eqb _ _); [injection E as <-; split; [|split]; assumption|].
+  unfold log_external_mods in E. destruct (w_stack (op_world op0)) as [so|] eqn:Es; [|discriminate].
+  destruct (state_commit _ _ _) as [[objs' so']|] eqn:Ec; [|discriminate].
+  injection E as <-. apply Inv_iff in Hi as [Hok [Hbr Hst]].
+  pose proof Hs as [Hsn [Hsk [Hsd [Hsp Hsh]]]].
+  apply state_commit_ok in Ec as [Hok' [He' Hs']]; [|exact Hok|].
+  - split; [|split]; cbn [op_world op_state op_base w_objs].
+    + apply Inv_mk. split; [exact Hok'|]. split; [eapply is_plain_ext; eauto|eauto].
+    + eapply wf_state_ext; [exact He'|].
+      split; [exact Hsn|]. split; [exact Hsk|]. split; [exact Hsd|]. split; [exact Hsp|exact Hbr].
+    + eapply is_plain_ext; eauto.
+  - split; [exact Hsn|]. split; [exact Hsk|]. split; [exact Hsd|]. split; [exact Hsp|exact Hbr].
+Qed.
+
 Lemma run_undo_like_inv : forall w s h m, Inv w -> Inv (fst (run_undo_like w s h m)).
 Proof.
   intros w s h m Hi. unfold run_undo_like.
-  destruct (open_stack PRequire w) as [op|] eqn:Eo; [apply (open_ok _ _ _ Hi) in Eo|exact Hi].
+  destruct (open_stack PRequire w) as [op0|] eqn:Eo; [apply (open_ok _ _ _ Hi) in Eo|exact Hi].
+  destruct (log_extmods_first op0) as [op|] eqn:El; [|inv_leaf].
+  apply (log_extmods_first_ok _ _ Eo) in El. clear Eo. rename El into Eo.
   transact_leaf. destruct (w_stack (op_world op)) as [so|]; [|apply W].
   destruct (find_undo_state _ _ _ _) as [st|] eqn:Ef; [|apply W].
   apply find_undo_state_logged in Ef as [so' Hs]. apply reset_wf; [exact W|].
